@@ -18,7 +18,9 @@ RULE = ("imaging datasets on random masks (densities 0.15-0.9, single pixel, rin
         "per-pixel {1,2,4}; affine + bilinear source-plane distortions; with / without regularization) and function lists (random sparse "
         "matrices, optional operated override); both use_w_tilde settings on the same inputs through aa.Inversion (class chosen, "
         "operated_mapping_matrix, data_vector, curvature_matrix, mapped_reconstructed_data for an injected integer reconstruction), the two "
-        "formalisms compared with each other (D, F, mapped data, and the solved reconstruction where F+H is well conditioned); plus every "
+        "formalisms compared with each other (D, F, mapped data, and the solved reconstruction where F+H is well conditioned); read-order "
+        "independence: a second instance on which curvature_reg_matrix / reconstruction / mapped_reconstructed_data are read BEFORE "
+        "operated_mapping_matrix / data_vector / curvature_matrix (late values judged by the same model + spec unless bit-identical); plus every "
         "anchored util function called directly on synthetic inputs (random sparse encodings with filler entries, random upper-triangular "
         "preloads, asymmetric matrices for the mirror, duplicate indices for the diagonal term). Non-trivial = at least 2 unmasked pixels "
         "and a kernel with more than one non-zero entry (inversion cases) / any util case; distinct = distinct JSON input.")
@@ -277,6 +279,26 @@ def run_inv(aa, inp):
                 rec = np.array(inv3.reconstruction); recmapped = np.array(inv3.mapped_reconstructed_data)
         except Exception as e:   # singular systems, degenerate solutions: C05
             rec = None
+        # read-order independence (cached quantities): on a fresh instance read curvature_reg_matrix / reconstruction /
+        # mapped_reconstructed_data / ... FIRST, then operated_mapping_matrix, data_vector, curvature_matrix.  If any of them is
+        # not bit-identical to the fresh-order read, the late values go through the same Coq comparison (model + spec) as an
+        # extra KInv case; identical values have already been judged above.
+        inv4 = aa.Inversion(dataset=dataset, linear_obj_list=los, settings=settings)
+        for name in ("curvature_reg_matrix", "reconstruction", "mapped_reconstructed_data", "curvature_reg_matrix_reduced",
+                     "regularization_term", "reconstruction_dict", "mapped_reconstructed_image"):
+            try: getattr(inv4, name)
+            except Exception:      # singular / degenerate systems are C05's; keep going with an injected reconstruction
+                if name == "reconstruction": inv4.__dict__["reconstruction"] = flv(r)
+        B4 = np.array(inv4.operated_mapping_matrix); D4 = np.array(inv4.data_vector); F4 = np.array(inv4.curvature_matrix)
+        if B4.shape == B.shape and D4.shape == D.shape and F4.shape == F.shape and \
+           np.array_equal(B4, B) and np.array_equal(D4, D) and np.array_equal(F4, F):
+            tally("late_read_identical")
+        else:
+            tally("late_read_differs")
+            terms.append(f"(KInv {cmask(m)} {cqm(K)} {cqv(d)} {cqv(s)} {cobjs} {cbool(is_wt)} {cq(eps)} {cq(tol)} "
+                         f"{cqm(fm(B4))} {cqv(fv(D4))} {cqm(fm(F4))})")
+            outs[str(use) + "_read_after_reconstruction"] = {"D": D4.tolist(), "F": F4.tolist()}
+            detail["read_order"] = "curvature_matrix / data_vector read after reconstruction differ from the fresh read"
         res[use] = dict(is_wt=is_wt, B=B, D=D, F=F, mapped=mapped, r=r, rec=rec, recmapped=None if rec is None else recmapped)
         outs[str(use)] = {"class": type(inv).__name__, "D": D.tolist(), "F": F.tolist()}
     a, b = res[False], res[True]
